@@ -41,8 +41,15 @@ async fn run_behaviour<const N: usize>(cfg: HCfg, beh: BehaviourJ, dir: std::pat
             break;
         }
     }
+    // `close` must return (C13); a failing close is reported like any other mismatch
+    if out.is_empty() {
+        if let Err(e) = d.shutdown(true).await {
+            out.push(Mismatch { step: steps.len(), action: "close".into(), kind: "close".into(), expected: json!("ok"), got: json!(e) });
+        }
+    } else {
+        let _ = d.shutdown(true).await;
+    }
     let log = d.log.clone();
-    let _ = d.shutdown(true).await;
     let _ = std::fs::remove_dir_all(&dir);
     Ok((out, log))
 }
@@ -64,6 +71,7 @@ fn main() {
     let mut tool_errors = 0u64;
     let mut sample: Option<serde_json::Value> = None;
     let mut distinct = std::collections::HashSet::new();
+    let mut action_counts: std::collections::BTreeMap<String, u64> = Default::default();
     for line in stdin.lock().lines() {
         let line = match line { Ok(l) => l, Err(_) => break };
         let text = if line.starts_with("<<\"BEHAVIOUR\"") {
@@ -87,6 +95,10 @@ fn main() {
         let steps = beh.steps.clone();
         steps_total += steps.len() as u64;
         let sig: Vec<String> = steps.iter().map(|s| s.act.a.clone()).collect();
+        for s in steps.iter() {
+            let label = if s.act.a == "restart" { format!("restart:{}:{}", s.act.f, s.act.s) } else { s.act.a.clone() };
+            *action_counts.entry(label).or_default() += 1;
+        }
         distinct.insert(fxhash(text.as_bytes()));
         if sample.is_none() {
             sample = Some(json!(steps.iter().map(|s| json!({"act": s.act, "ret": s.ret})).collect::<Vec<_>>()));
@@ -133,7 +145,7 @@ fn main() {
         if failed >= max_fail { break; }
     }
     let _ = std::fs::remove_dir_all(&root);
-    println!("RESULT {}", json!({"lines": n, "executed": executed, "distinct": distinct.len(), "steps": steps_total, "failed": failed, "tool_errors": tool_errors, "sample": sample}));
+    println!("RESULT {}", json!({"lines": n, "executed": executed, "distinct": distinct.len(), "steps": steps_total, "failed": failed, "tool_errors": tool_errors, "sample": sample, "actions": action_counts}));
     if tool_errors > 0 { std::process::exit(2); }
 }
 
